@@ -5,7 +5,7 @@ from hypothesis.stateful import RuleBasedStateMachine, rule
 from pbt import sut
 from pbt.sut import PropertyFailure
 from pbt.fakes import quiet  # noqa: F401
-from pbt.fakes.port import FakePort, ALL_EXC
+from pbt.fakes.port import FakePort, ALL_EXC, ERROR_LINES
 from pbt.fakes.board import Board, NO_OK_QUERIES
 
 ID = "C07"
@@ -193,7 +193,7 @@ def ops(draw):
         elif fk == "silence":
             fault = [draw(st.sampled_from([0, 1])), ["silence"]]
         else:
-            fault = [1, ["errline"]]
+            fault = [1, ["errline", draw(st.sampled_from(ERROR_LINES))]]
             if draw(st.booleans()):
                 # the device answers with an error line and the link then fails while waiting for the OK
                 second = [draw(st.integers(2, 5)), ["raise", draw(st.sampled_from(ALL_EXC))]]
@@ -232,6 +232,8 @@ def grid():
                       [1, ["raise", "OSError"]], [2, ["raise", "SerialException"]],
                       [3, ["raise", "SerialException"]], [3, ["raise", "RuntimeError"]], [4, ["raise", "OSError"]]):
             yield [[kind, text, [1, 0], fault], ["query", "QB\r", [0, 0], None]]
+        for line in ERROR_LINES:
+            yield [[kind, text, [0, 0], [1, ["errline", line]]], ["query", "QB\r", [0, 0], None]]
         for second in ([2, ["raise", "SerialException"]], [3, ["raise", "OSError"]], [2, ["raise", "RuntimeError"]]):
             yield [[kind, text, [0, 1], [1, ["errline"]], second], ["query", "QB\r", [0, 0], None]]
 
